@@ -13,8 +13,8 @@ that are laid out at the current screen size), so the same spec is redrawn after
 """
 from __future__ import annotations
 
+import functools
 import os
-import signal
 import warnings
 from html.parser import HTMLParser
 
@@ -29,21 +29,22 @@ from vlib.widths import use_encoding
 PROPERTY = "C04"
 LEVEL = "exploration"
 RULE = (
-    "history: Hypothesis op lists (1-8 steps) over draw(fresh canvas spec) / mod(previous spec with some rows "
-    "replaced and the cursor moved) / same(the identical canvas object again) / wdraw(render of a generated "
-    "box-widget tree) / clear() / resize(cols, rows; delivered as _sigwinch_handler + parse_input, optionally "
-    "with a draw_screen attempted before the resize is handled) / props(set_terminal_properties colours, "
-    "bright_is_bold) / pal(register_palette_entry, followed by clear()); screen sizes 1..12 x 1..6; colours in "
-    "{1,16,88,256,2^24}; back_color_erase on/off (terminal BCE on whenever the screen assumes it); "
-    "bright_is_bold on/off; alternate buffer or partial-screen mode; encodings utf-8 / iso8859-1 / euc-jp. "
-    "Canvas rows are attribute runs (None, palette names incl. aliases registered with the (name, like_name) form, "
-    "undefined names, AttrSpec objects of the active depth with every setting) over ASCII, spaces, CJK wide, "
-    "combining, emoji, DEC line drawing (charset '0' runs outside utf-8) and C0 controls, completed to the width by "
-    "a fill character (space / narrow / wide / line drawing). html: one canvas spec x colours x palette x cursor. "
-    "Non-trivial (history): two consecutive draws at the same size with no clear in between that have at least one "
-    "unchanged and one changed row, or a draw whose bottom-right cell is printed (not erased), or a wide character "
-    "in the last two columns. Non-trivial (html): cursor present and at least two attribute runs in its row, or "
-    "a character that needs escaping."
+    "history: Hypothesis op lists (1-8 steps; the first is a draw) over draw(fresh canvas spec) / mod(previous spec "
+    "with 0-2 rows replaced and the cursor kept or moved; the most frequent op) / same(the identical canvas object "
+    "again) / wdraw(render of a generated depth-2 box-widget tree) / clear() / resize(cols, rows; delivered as "
+    "_sigwinch_handler + parse_input consuming the flag, optionally with a draw_screen attempted before the resize "
+    "is handled) / props(set_terminal_properties colours, bright_is_bold) / pal(register_palette_entry, followed by "
+    "clear()); screen sizes 1..12 x 1..6; colours in {1,16,88,256,2^24}; back_color_erase on/off (terminal BCE on "
+    "whenever the screen assumes it); bright_is_bold on/off; alternate buffer or partial-screen mode; palette "
+    "registered before or after set_terminal_properties; encodings utf-8 / iso8859-1 / euc-jp. Canvas rows are "
+    "attribute runs (None, palette names incl. aliases registered with the (name, like_name) form, undefined names, "
+    "AttrSpec objects of the active depth with every setting) over ASCII, spaces, CJK wide, combining, emoji, DEC "
+    "line drawing (charset '0' runs outside utf-8) and C0 controls, completed to the width by a fill character "
+    "(space / narrow / wide / line drawing). html: one canvas spec x colours x palette x cursor. Non-trivial "
+    "(history): two consecutive draws at the same size with no clear in between that have at least one unchanged "
+    "and one changed row, or a draw whose bottom-right cell is printed (not erased), or a wide character in the "
+    "last two columns. Non-trivial (html): cursor present and at least two attribute runs in its row, or a "
+    "character that needs escaping. Bounds are cost bounds only: <= 8 steps, <= 12 x 6 cells, <= 6 row specs."
 )
 ASSUMPTIONS = [
     "vlib/vtmodel.py (xterm semantics: pending-wrap, IRM insert mode, BCE, SO/SI with G1 = DEC special graphics) "
@@ -52,15 +53,22 @@ ASSUMPTIONS = [
     "an attribute (C18); register_palette_entry's documented depth selection is re-implemented in the check",
     "TERM=xterm is set in the worker (bg_bright_is_blink off, no fbterm escapes); has_underline is not consulted "
     "by draw_screen; charset 'U' (IBM PC) runs are not generated",
-    "the output stream encodes str with the screen encoding (what a TextIO on a terminal in that locale does)",
+    "the output stream encodes str with the screen encoding (what a TextIO on a terminal in that locale does); "
+    "SIGWINCH is delivered by calling _sigwinch_handler (signal_handler_setter is replaced by a no-op so that two "
+    "Screens can live in one process)",
     "a palette change after the first draw is followed by clear() (the statement speaks of draws, clears and size "
-    "changes only; set_terminal_properties clears by itself)",
-    "a blank cell shows only background, underline, standout and strikethrough; with bright_is_bold a basic "
-    "foreground 8..15 is 'bold + colour-8'",
+    "changes only; set_terminal_properties clears by itself); the None entry is not re-registered",
+    "a blank cell shows only background, underline, standout and strikethrough (and the foreground when one of "
+    "these is set); with bright_is_bold a basic foreground 8..15 is 'bold + colour-8'",
     "partial-screen mode starts on a blank terminal with the cursor at the top-left and as many rows as the "
-    "canvas (the mode's own precondition: room below the cursor); rows that were never used and are blank are "
-    "compared by glyph only (the mode leaves them untouched by design); no resize in partial mode",
-    "text is valid in the encoding; a row does not start with a zero-width character; DEL and C1 are not generated",
+    "canvas (the mode's own precondition: room below the cursor); rows that are blank by the mode's own test (one "
+    "run of whitespace bytes, any attribute) may be left off the display: their attributes are not compared and a "
+    "blank glyph is accepted; no resize in partial mode",
+    "text is valid in the encoding; a row does not start with a zero-width character; DEL and C1 are not generated; "
+    "in euc-jp a double-byte character that wcwidth shows in one column (e.g. the ellipsis mark) discards the case",
+    "html: colours are only used to recognise the highlighted character (swapped colour / background of its run); "
+    "'at most one cursor cell' is read as: no highlight without a canvas cursor, at most one highlighted character, "
+    "and it covers the cursor column",
 ]
 
 ENCS = ["utf-8", "utf-8", "iso8859-1", "euc-jp"]
@@ -330,6 +338,10 @@ def expected_grid(canvas, enc, mode):
                     cells.append(("?", attr))
                     continue
                 ch = piece.decode(enc, "replace")
+                if mode == "wide" and w == 2 and (len(ch) != 1 or W.char_width(ch) != 2):
+                    # a double-byte character a Unicode terminal shows in one column (East Asian ambiguous, e.g.
+                    # the ellipsis mark): outside the wide-mode precondition "two bytes = two columns"
+                    raise Discard()
                 if w == 0:
                     k = len(cells) - 1
                     while k >= 0 and cells[k][0] == "":
@@ -383,6 +395,9 @@ class Rig:
         self.inp = os.fdopen(self.rfd, "rb", 0)
         self.screen = _screen_class()(input=self.inp, output=self.cap)
         self.screen.vf_size = (case["cols"], case["rows"])
+        # the hook event loops use to install handlers their own way: the harness delivers SIGWINCH by calling
+        # _sigwinch_handler itself, so the process-wide handler table is left alone (two Screens live side by side)
+        self.screen.signal_handler_setter = lambda signum, handler: None
         self.vt = VT(case["cols"], case["rows"], bce=case.get("term_bce", True) or case["bce"], encoding=self.enc)
         self.fed = 0
 
@@ -409,7 +424,13 @@ def _viol(clause, message, **data):
     return v
 
 
-def compare(rig, canvas, pal, depth, bib, mode, where, partial_used=None):
+def _mode_blank(row):
+    """partial-screen mode's own notion of a row it may leave off the display: one run of whitespace bytes
+    (whatever its attribute; bytes.strip() also takes TAB LF VT FF CR for blank)"""
+    return len(row) == 1 and not row[0][2].strip()
+
+
+def compare(rig, canvas, pal, depth, bib, mode, where, partial=False, raw_canvas=True):
     """oracle clauses 1-3 for one terminal"""
     vt = rig.vt
     tag = rig.label
@@ -420,13 +441,20 @@ def compare(rig, canvas, pal, depth, bib, mode, where, partial_used=None):
     if vt.insert_mode:
         raise _viol("insert-mode-left-on", f"{where} [{tag}]: the terminal is left in insert mode")
     exp = expected_grid(canvas, rig.enc, mode)
+    content = list(canvas.content())
     shown = [vt.row_text(r) for r in range(vt.rows)]
     for y, row in enumerate(exp):
         if len(row) != vt.cols:
-            raise Discard()
-        weak_row = partial_used is not None and y > partial_used
+            if not raw_canvas:
+                raise Discard()  # a widget tree rendered a row of the wrong width: C01 / C02
+            raise _viol("canvas-wider-than-screen",
+                        f"{where} [{tag}]: row {y} of the {vt.cols}-column canvas paints {len(row)} columns: "
+                        f"{[c[0] for c in row]}")
+        weak_row = partial and _mode_blank(content[y])
         for x, (glyph, attr) in enumerate(row):
             cell = vt.grid[y][x]
+            if weak_row and cell.glyph == " ":
+                continue
             if cell.glyph != glyph:
                 raise _viol("cell-glyph", f"{where} [{tag}]: cell ({x},{y}) shows {cell.glyph!r}, canvas has {glyph!r}; "
                                           f"terminal {shown}, canvas {[''.join(c[0] for c in r) for r in exp]}",
@@ -478,14 +506,8 @@ def render_widget(wspec, size, enc):
     return canvas
 
 
-def _reset_signals():
-    for sig in (signal.SIGWINCH, signal.SIGTSTP, signal.SIGCONT):
-        signal.signal(sig, signal.SIG_DFL)
-
-
 def check_history(case):
     os.environ["TERM"] = "xterm"
-    _reset_signals()
     enc = case["enc"]
     mode = use_encoding(enc)
     cols, rows = case["cols"], case["rows"]
@@ -522,7 +544,6 @@ def check_history(case):
 
         last_spec = None
         last_canvas = None
-        partial_used = None if alt else 0
         assumed_cy = 0  # partial-screen mode: the row the application's bookkeeping can know the cursor is on
         drift = False
         for i, step in enumerate(case["steps"]):
@@ -596,11 +617,6 @@ def check_history(case):
                 raise AssertionError(step)
 
             # ---- a draw ----
-            if not alt:
-                # rows beyond the lowest non-blank row drawn so far are left alone by partial-screen mode
-                for y, row in enumerate(canvas.content()):
-                    if not (len(row) == 1 and not row[0][2].strip()):
-                        partial_used = max(partial_used, y)
             inc.screen.draw_screen((cols, rows), canvas)
             full.screen.clear()
             full.screen.draw_screen((cols, rows), canvas)
@@ -608,41 +624,44 @@ def check_history(case):
             sent = [rig.pump() for rig in rigs]
             try:
                 for rig in rigs:
-                    compare(rig, canvas, pal, depth, bib, mode, where, partial_used)
+                    compare(rig, canvas, pal, depth, bib, mode, where, not alt, "rows" in last_spec)
             except Violation as v:
                 v.data = dict(getattr(v, "data", {}), cols=cols, rows=rows, depth=depth, enc=enc, alt=alt,
-                              partial_drift=drift, bce=case["bce"],
+                              partial_drift=drift, bce=case["bce"], step=i,
                               content=[[(repr(a), cs, bs.decode("latin-1")) for a, cs, bs in row]
                                        for row in canvas.content()])
                 v.message += f"; bytes {sent[0]!r}"
                 raise
             a, b = inc.vt, full.vt
-            if drift and not alt and (a.snapshot() != b.snapshot()):
+            snap_a, snap_b = a.snapshot(), b.snapshot()
+            if not alt:
+                # partial-screen mode leaves blank rows (its own notion: whitespace bytes) off the display
+                blank = [_mode_blank(r) for r in canvas.content()]
+                snap_a, snap_b = (tuple(() if blank[y] else row for y, row in enumerate(sn)) for sn in (snap_a, snap_b))
+            if drift and not alt and snap_a != snap_b:
                 v = _viol("differs-from-full-repaint", f"{where}: partial-screen mode after a cursor-less draw")
                 v.data.update(alt=alt, partial_drift=drift)
                 raise v
-            if a.snapshot() != b.snapshot() or a.cursor_visible != b.cursor_visible or (
+            if snap_a != snap_b or a.cursor_visible != b.cursor_visible or (
                     a.cursor_visible and a.cursor != b.cursor):
                 raise _viol("differs-from-full-repaint",
                             f"{where}: incremental redraw shows {[a.row_text(r) for r in range(a.rows)]} cursor "
                             f"{a.cursor if a.cursor_visible else None}, full repaint shows "
                             f"{[b.row_text(r) for r in range(b.rows)]} cursor {b.cursor if b.cursor_visible else None}; "
-                            f"incremental bytes {sent[0]!r}")
+                            f"incremental bytes {sent[0]!r}", alt=alt, partial_drift=drift, step=i)
             last_canvas = canvas
             if not alt:
                 if canvas.cursor is not None:
                     assumed_cy = canvas.cursor[1]
-                elif inc.vt.y != assumed_cy:
+                elif inc.vt.y != assumed_cy or full.vt.y != assumed_cy:
                     drift = True  # the terminal cursor was left on another row than the last canvas cursor's
     finally:
         try:
-            # reverse order: each Screen.start() saved the signal handlers it found (the other rig's)
             try:
                 full.close()
             finally:
                 inc.close()
         finally:
-            _reset_signals()
             use_encoding("utf-8")
 
 
@@ -735,7 +754,7 @@ def check_html(case):
             exp_chars = []  # (char, normal (fg,bg) colours or None)
             for attr, cs, bs in row:
                 text = "".join("?" if ord(c) < 32 else c for c in bs.decode(enc))
-                aspec = pal.resolve(attr, 16 if depth == 2**24 else depth)
+                aspec = pal.resolve(attr, depth)
                 colours = None
                 if aspec is not None or attr is None:
                     r = (aspec or AttrSpec("black", "light gray")).get_rgb_values()
@@ -778,30 +797,39 @@ def check_html(case):
 SUBS = {"history": check_history, "html": check_html}
 
 # ---------------------------------------------------------------------------------------------
-# strategies
+# strategies (built once per parameter set: constructing strategies inside a composite costs more than the check)
 
 
-def _alphabet(enc):
-    return list(T.ALPHABET[enc]) + [" "] * 6 + ["<", "&", '"']
+_SPACE_STANDINS = "\u2000\u2001\u2002\u2003\u2004\u2005"  # drawn as characters, turned into spaces (weighting)
+_SPACE_TABLE = {ord(c): " " for c in _SPACE_STANDINS}
+_MASKS = [0, 0, 0, 1, 2, 4, 8, 16, 32, 5, 20, 33, 48, 63]
 
 
+def _text(enc, controls, max_size=8):
+    alpha = set(T.ALPHABET[enc]) | set(' <&"') | set(_SPACE_STANDINS)
+    if controls:
+        alpha |= set(CONTROLS)
+    # one draw_string primitive per text instead of two choices per character
+    return st.text(alphabet="".join(sorted(alpha)), min_size=0, max_size=max_size).map(lambda t: t.translate(_SPACE_TABLE))
+
+
+def _decode_s(n):
+    return ["S", n % 31, n // 31 % 21, _MASKS[n // (31 * 21)]]
+
+
+@functools.lru_cache(maxsize=None)
 def _attr_tok(undefined=True):
     names = NAMES + (UNDEFINED if undefined else [])
     return st.one_of(
         st.none(),
-        st.sampled_from(names),
-        st.sampled_from(names),
-        st.tuples(st.just("S"), st.integers(0, 30), st.integers(0, 20),
-                  st.one_of(st.just(0), st.sampled_from([1, 2, 4, 8, 16, 32]), st.integers(0, 63))).map(list),
+        st.sampled_from(names + names),
+        st.integers(0, 31 * 21 * len(_MASKS) - 1).map(_decode_s),
     )
 
 
+@functools.lru_cache(maxsize=None)
 def _rowspec(enc, undefined=True, controls=True):
-    alpha = _alphabet(enc)
-    chars = st.sampled_from(alpha) if not controls else st.one_of(
-        st.sampled_from(alpha), st.sampled_from(alpha), st.sampled_from(alpha), st.sampled_from(alpha),
-        st.sampled_from(alpha), st.sampled_from(alpha), st.sampled_from(alpha + CONTROLS))
-    text = st.lists(chars, min_size=0, max_size=8).map("".join)
+    text = _text(enc, controls)
     fills = [" ", " ", " ", "x", "─"] + (["漢"] if enc != "iso8859-1" else ["é"])
     return st.fixed_dictionaries({
         "segs": st.lists(st.tuples(_attr_tok(undefined), text).map(list), min_size=0, max_size=4),
@@ -809,83 +837,106 @@ def _rowspec(enc, undefined=True, controls=True):
     })
 
 
-_cursor = st.one_of(st.none(), st.tuples(st.integers(0, 11), st.integers(0, 5)).map(list))
+_cursor_always = st.tuples(st.integers(0, 11), st.integers(0, 5)).map(list)
+_cursor = st.one_of(st.none(), _cursor_always)
 
 
-def _canvas_spec(enc, undefined=True):
-    return st.fixed_dictionaries({"rows": st.lists(_rowspec(enc, undefined), min_size=1, max_size=6), "cursor": _cursor})
+@functools.lru_cache(maxsize=None)
+def _canvas_spec(enc, undefined=True, controls=True, cursors=False):
+    return st.fixed_dictionaries({"rows": st.lists(_rowspec(enc, undefined, controls), min_size=1, max_size=6),
+                                  "cursor": _cursor_always if cursors else _cursor})
 
 
-def _pal_entry(names=NAMES):
+@functools.lru_cache(maxsize=None)
+def _pal_entry(names=tuple(NAMES)):
     return st.tuples(st.sampled_from(names), st.integers(0, 16), st.integers(0, 8),
-                     st.one_of(st.just(0), st.integers(0, 63)),
-                     st.one_of(st.none(), st.integers(0, 63)),
+                     st.sampled_from([0, 0, 0, 1, 4, 16, 32, 21, 42, 63]),
+                     st.one_of(st.none(), st.sampled_from([0, 1, 4, 16, 32, 63])),
                      st.one_of(st.none(), st.integers(0, 8)), st.one_of(st.none(), st.integers(0, 8)),
-                     st.one_of(st.just(0), st.integers(0, 63))).map(list)
+                     st.sampled_from([0, 0, 0, 2, 8, 32, 63])).map(list)
 
 
-def _palette(aliases=True):
-    item = _pal_entry()
-    if aliases:
-        item = st.one_of(item, item, item, st.tuples(st.sampled_from(NAMES), st.sampled_from(NAMES)).map(list))
+@functools.lru_cache(maxsize=None)
+def _palette():
+    item = st.one_of(_pal_entry(), _pal_entry(), _pal_entry(),
+                     st.tuples(st.sampled_from(NAMES), st.sampled_from(NAMES)).map(list))
     return st.lists(item, min_size=0, max_size=5)
 
 
-_size = st.tuples(st.one_of(st.integers(1, 12), st.integers(1, 4)), st.integers(1, 6))
+_cols = st.sampled_from(list(range(1, 13)) + [1, 2, 3, 4])
+_rows = st.integers(1, 6)
 
 
-@st.composite
-def _history_case(draw, widgets=False, aliases=True, partial=None):
-    enc = draw(st.sampled_from(ENCS))
-    cols, rows = draw(_size)
-    bce = draw(st.booleans())
-    canvas = _canvas_spec(enc)
+@functools.lru_cache(maxsize=None)
+def _history_for(enc, controls, widgets, partial, cursors):
+    canvas = _canvas_spec(enc, True, controls, cursors)
     mod = st.fixed_dictionaries({
-        "edits": st.lists(st.tuples(st.integers(0, 5), _rowspec(enc)).map(list), min_size=0, max_size=2),
-        "cursor": st.one_of(st.just("keep"), _cursor),
+        "edits": st.lists(st.tuples(st.integers(0, 5), _rowspec(enc, True, controls)).map(list), min_size=0, max_size=2),
+        "cursor": st.one_of(st.just("keep"), _cursor_always if cursors else _cursor),
     })
+    mod1 = st.fixed_dictionaries({
+        "edits": st.lists(st.tuples(st.integers(0, 5), _rowspec(enc, True, controls)).map(list), min_size=1, max_size=1),
+        "cursor": st.one_of(st.just("keep"), _cursor_always if cursors else _cursor),
+    })
+    draw_op = st.tuples(st.just("draw"), canvas)
+    mod_op = st.tuples(st.just("mod"), mod)
+    mod1_op = st.tuples(st.just("mod"), mod1)
     ops = [
-        st.tuples(st.just("draw"), canvas),
-        st.tuples(st.just("mod"), mod),
-        st.tuples(st.just("mod"), mod),
-        st.tuples(st.just("mod"), mod),
+        draw_op, mod_op, mod_op, mod1_op, mod1_op, mod1_op,
         st.tuples(st.just("same")),
         st.tuples(st.just("clear")),
-        st.tuples(st.just("resize"), st.one_of(st.integers(1, 12), st.integers(1, 4)), st.integers(1, 6), st.booleans()),
+        st.tuples(st.just("resize"), _cols, _rows, st.booleans()),
         st.tuples(st.just("props"), st.sampled_from(DEPTHS), st.booleans()),
         st.tuples(st.just("pal"), _pal_entry()),
     ]
+    first = draw_op
     if widgets:
         from vlib import gen_widgets as G
 
-        wd = st.tuples(st.just("wdraw"), st.fixed_dictionaries({"w": G.widget("box", 2, "utf-8" if enc == "utf-8" else enc),
-                                                               "focus": st.booleans()}))
+        wd = st.tuples(st.just("wdraw"), st.fixed_dictionaries({"w": G.widget("box", 2, enc), "focus": st.booleans()}))
         ops += [wd, wd, wd]
-    steps = draw(st.lists(st.one_of(ops).map(list), min_size=0, max_size=7))
-    first = draw(st.one_of(ops[-1] if widgets else ops[0], ops[0]).map(list))
-    return {
-        "enc": enc, "cols": cols, "rows": rows,
-        "colors": draw(st.sampled_from(DEPTHS)),
-        "bib": draw(st.booleans()),
-        "bce": bce,
-        "term_bce": True if bce else draw(st.booleans()),
-        "alt": (draw(st.integers(0, 5)) != 0) if partial is None else not partial,
-        "props_first": draw(st.booleans()),
-        "palette": draw(_palette(aliases)),
-        "steps": [first, *steps],
-    }
+        first = st.one_of(wd, wd, draw_op)
+    steps = st.tuples(first, st.lists(st.one_of(ops), min_size=0, max_size=7)).map(
+        lambda t: [list(t[0]), *[list(o) for o in t[1]]])
+    return st.fixed_dictionaries({
+        "enc": st.just(enc), "cols": _cols, "rows": _rows,
+        "colors": st.sampled_from(DEPTHS),
+        "bib": st.booleans(),
+        "bce": st.booleans(),
+        "term_bce": st.booleans(),  # only consulted when the screen does not assume BCE
+        "alt": st.just(False) if partial else st.sampled_from([True] * 5 + [False]) if partial is None else st.just(True),
+        "props_first": st.booleans(),
+        "palette": _palette(),
+        "steps": steps,
+    })
 
 
-@st.composite
-def _html_case(draw, undefined=True, truecolour=True):
-    enc = draw(st.sampled_from(ENCS))
-    cols, rows = draw(_size)
-    return {
-        "enc": enc, "cols": cols, "rows": rows,
-        "colors": draw(st.sampled_from(DEPTHS if truecolour else DEPTHS[:4])),
-        "palette": draw(_palette()),
-        "canvas": draw(_canvas_spec(enc, undefined)),
-    }
+# utf-8: a control character always runs into the recorded width inconsistency, so most cases have none
+_ENC_MIX = [("utf-8", False)] * 8 + [("utf-8", True)] + [("iso8859-1", True)] * 3 + [("euc-jp", True)] * 3
+
+
+def _history_case(widgets=False, partial=None, cursors=False):
+    """cursors=True: every canvas has a cursor (partial-screen mode behind the recorded _cy finding)"""
+    return st.one_of([_history_for(enc, controls, widgets, partial, cursors) for enc, controls in _ENC_MIX])
+
+
+@functools.lru_cache(maxsize=None)
+def _html_for(enc, controls, defined):
+    palette = _palette()
+    if defined:
+        palette = st.tuples(st.tuples(*[_pal_entry((n,)) for n in NAMES]), palette).map(lambda t: [*t[0], *t[1]])
+    return st.fixed_dictionaries({
+        "enc": st.just(enc), "cols": _cols, "rows": _rows,
+        "colors": st.sampled_from(DEPTHS[:4] if defined else DEPTHS),
+        "palette": palette,
+        "canvas": _canvas_spec(enc, not defined, controls),
+    })
+
+
+def _html_case(defined=False):
+    """defined=True: every attribute name used is in the palette and the depth is one HtmlGenerator lists
+    (the campaign behind the two recorded KeyError findings)"""
+    return st.one_of([_html_for(enc, True, defined) for enc in ENCS])
 
 
 # ---------------------------------------------------------------------------------------------
@@ -1002,19 +1053,25 @@ def _html_classes(case):
 
 
 def shard(ctx):
-    n_hist = ctx.scale(560, 11000)
-    n_wid = ctx.scale(120, 2500)
-    n_part = ctx.scale(120, 1500)
-    n_html = ctx.scale(300, 4000)
+    n_hist = ctx.scale(240, 8000)
+    n_wid = ctx.scale(50, 1500)
+    n_part = ctx.scale(60, 1000)
+    n_html = ctx.scale(110, 2500)
     ctx.given("history", _history_case(), n_hist, nontrivial=_history_nontrivial, classify=_history_classes)
     if ctx.failure is None:
-        ctx.given("history", _history_case(partial=True), n_part, nontrivial=_history_nontrivial,
+        ctx.given("history", _history_case(partial=True), n_part // 4, nontrivial=_history_nontrivial,
                   classify=_history_classes)
+    if ctx.failure is None:
+        ctx.given("history", _history_case(partial=True, cursors=True), n_part - n_part // 4,
+                  nontrivial=_history_nontrivial, classify=_history_classes)
     if ctx.failure is None:
         ctx.given("history", _history_case(widgets=True), n_wid, nontrivial=_history_nontrivial,
                   classify=_history_classes)
     if ctx.failure is None:
-        ctx.given("html", _html_case(), n_html, nontrivial=_html_nontrivial, classify=_html_classes)
+        ctx.given("html", _html_case(), n_html // 4, nontrivial=_html_nontrivial, classify=_html_classes)
+    if ctx.failure is None:
+        ctx.given("html", _html_case(defined=True), n_html - n_html // 4, nontrivial=_html_nontrivial,
+                  classify=_html_classes)
 
 
 # ---------------------------------------------------------------------------------------------
@@ -1025,17 +1082,25 @@ def _content_rows(v):
     return getattr(v, "data", {}).get("content") or []
 
 
-def _last_two_widths(row, enc):
-    """column widths of the last two characters of a content row [(attr, cs, latin-1 text)]"""
-    ws = []
+def _last_two(row, enc):
+    """[width, charset, holds a C0 control] of the last two column-occupying characters of a content row
+    [(attr, cs, latin-1 text)], each taken together with the zero-width characters that follow it"""
+    out = []
     mode = W.mode_of(enc)
     for _a, cs, text in row:
         bs = text.encode("latin-1")
         if cs is not None:
-            ws.extend([1] * len(bs))
-        else:
-            ws.extend(w if not (e - s == 1 and bs[s] < 0x20) else 1 for s, e, w in W.chars(bs, mode) if w or bs[s] < 0x20)
-    return ws[-2:]
+            out.extend([1, cs, b < 0x20] for b in bs)
+            continue
+        for s, e, w in W.chars(bs, mode):
+            ctl = e - s == 1 and bs[s] < 0x20
+            if ctl and enc != "utf-8":
+                w = 1  # one byte, one column
+            if w:
+                out.append([w, None, ctl])
+            elif out and ctl:
+                out[-1][2] = True  # utf-8: urwid gives a control no column of its own
+    return out[-2:]
 
 
 def _k_last_row_back(sub, case, v):
@@ -1046,16 +1111,99 @@ def _k_last_row_back(sub, case, v):
     rows = _content_rows(v)
     if not rows or d.get("y") != d["rows"] - 1 or d["cols"] < 2:
         return False
-    ws = _last_two_widths(rows[-1], d["enc"])
-    return len(ws) == 2 and ws[0] != ws[1]
+    two = _last_two(rows[-1], d["enc"])
+    return len(two) == 2 and two[0][0] != two[1][0]
 
 
-def _k_last_row_single(sub, case, v):
-    # a 2-column screen whose last row is one double-width character: _last_row looks for a previous segment
-    if sub != "history" or v.clause != "exception:IndexError@display/_raw_display_base.py:_last_row":
+def _run_chars(run, enc):
+    """[(width, is C0 control)] of the characters of one content run (attr, cs, latin-1 text), as urwid counts them"""
+    _a, cs, text = run
+    bs = text.encode("latin-1")
+    if cs is not None:
+        return [(1, b < 0x20) for b in bs]
+    out = []
+    for s, e, w in W.chars(bs, W.mode_of(enc)):
+        ctl = e - s == 1 and bs[s] < 0x20
+        out.append((0 if (ctl and enc == "utf-8") else (1 if ctl else w), ctl))
+    return out
+
+
+def _k_last_row_prev_segment(sub, case, v):
+    # _last_row, "we need another segment": when the bottom-right character starts the last run, y is taken from
+    # row[-2] without checking that this run exists and has a column
+    if sub != "history":
         return False
-    return any(cols == 2 and cells is not None and [c[0] for c in cells[-1]][1:] == [""]
-               for _k, cols, _rows, cells, _prev in _walk_history(case))
+    if v.clause == "exception:IndexError@display/_raw_display_base.py:_last_row":
+        # no previous run at all: a 2-column screen whose last row is one double-width character
+        return "assignment" in v.message and any(
+            cols == 2 and (cells is None or [c[0] for c in cells[-1]][1:] == [""])
+            for _k, cols, _rows, cells, _prev in _walk_history(case))
+    if v.clause not in ("cell-glyph", "cell-attr"):
+        return False
+    d = v.data
+    rows = _content_rows(v)
+    if not rows or d.get("y") != d["rows"] - 1 or len(rows[-1]) < 2:
+        return False
+    last = _run_chars(rows[-1][-1], d["enc"])
+    prev_cols = sum(c[0] for c in _run_chars(rows[-1][-2], d["enc"]))
+    # the bottom-right character is the only one with a column in the last run, and either the previous run holds
+    # zero-width characters only or the last run starts with zero-width characters (which belong to y's cell)
+    return len([c for c in last if c[0]]) == 1 and (prev_cols == 0 or last[0][0] == 0)
+
+
+def _k_alias(sub, case, v):
+    # register_palette((name, like_name)) copies the entry into _palette without the UPDATE_PALETTE_ENTRY signal:
+    # the raw display has no escape sequence for the alias until set_terminal_properties rebuilds the table
+    if sub != "history" or v.clause != "cell-attr":
+        return False
+    kind = {}
+    for it in palette_items(case.get("palette", [])):
+        kind[repr(it[1] if it[0] == "alias" else it[1][0])] = it[0]
+    for step in case["steps"][: v.data["step"]]:
+        if step[0] == "pal":
+            kind[repr(step[1][0])] = "entry"
+    return kind.get(v.data["attr"]) == "alias"  # the name's last registration is the (name, like_name) form
+
+
+def _k_insert_charset(sub, case, v):
+    # the character slid in with insert mode is sent in the charset of the row's last run (cs), not its own (insertcs)
+    if sub != "history" or v.clause != "cell-glyph":
+        return False
+    d = v.data
+    rows = _content_rows(v)
+    if not rows or d["enc"] == "utf-8" or (d.get("x"), d.get("y")) != (d["cols"] - 2, d["rows"] - 1):
+        return False
+    two = _last_two(rows[-1], d["enc"])
+    return len(two) == 2 and two[0][1] != two[1][1]
+
+
+def _k_insert_control(sub, case, v):
+    # the character slid in with insert mode is not passed through the control-character translation
+    if sub != "history" or v.clause not in ("scrolled", "cell-glyph", "cell-attr", "cursor", "terminal-rejects",
+                                            "insert-mode-left-on"):
+        return False
+    d = v.data
+    rows = _content_rows(v)
+    if not rows or d["cols"] < 2:
+        return False
+    two = _last_two(rows[-1], d["enc"])
+    return len(two) == 2 and two[0][2]
+
+
+def _k_strike_erased(sub, case, v):
+    # trailing blanks are replaced by erase-to-end-of-line unless standout/underline: strikethrough is not considered
+    if sub != "history" or v.clause != "cell-attr":
+        return False
+    d = v.data
+    return bool(d["bce"]) and d["glyph"] == " " and "strike" in d["exp"][2] and "strike" not in d["got"][2]
+
+
+def _k_html_undefined(sub, case, v):
+    if sub != "html" or v.clause != "exception:KeyError@display/html_fragment.py:draw_screen":
+        return False
+    defined = {it[1][0] if it[0] == "entry" else it[1] for it in palette_items(case.get("palette", []))}
+    used = {tok for row in case["canvas"]["rows"] for tok, _t in [*row["segs"], row["fill"]] if isinstance(tok, str)}
+    return any(repr(n) in v.message for n in used - defined)
 
 
 def _has_c0(rows):
@@ -1064,7 +1212,7 @@ def _has_c0(rows):
 
 def _k_utf8_control(sub, case, v):
     # utf-8: str_util measures a C0 control as 0 columns, draw_screen paints it as a one-column '?'
-    if sub != "history" or v.clause not in ("scrolled", "cell-glyph", "cell-attr", "cursor"):
+    if sub != "history" or v.clause not in ("canvas-wider-than-screen", "scrolled", "cell-glyph", "cell-attr", "cursor"):
         return False
     return v.data["enc"] == "utf-8" and _has_c0(_content_rows(v))
 
@@ -1083,8 +1231,13 @@ def _k_html_truecolour(sub, case, v):
 
 KNOWN = {
     "C04-last-row-backspace-width": _k_last_row_back,
-    "C04-last-row-single-wide-char": _k_last_row_single,
-    "C04-utf8-control-width": _k_utf8_control,
+    "C04-last-row-previous-segment": _k_last_row_prev_segment,
     "C04-partial-cy-without-cursor": _k_partial_cy,
     "C04-html-truecolour-keyerror": _k_html_truecolour,
+    "C04-palette-alias-not-registered": _k_alias,
+    "C04-insert-charset": _k_insert_charset,
+    "C04-insert-control-untranslated": _k_insert_control,
+    "C04-utf8-control-width": _k_utf8_control,
+    "C04-strikethrough-blanks-erased": _k_strike_erased,
+    "C04-html-undefined-attribute": _k_html_undefined,
 }
